@@ -54,6 +54,14 @@ CHECKS = {
    tech="TLA+ state machine JtFlags (PyTree check at call-out granularity with the flatten / leaf-position flags, nesting, fault action at every call-out; Quiescent, LabelIsInnermostStructured, FlattenStaysOn; no-finally variant refuted by TLC); fault-injected operation histories on the real code followed by a probe battery whose expected verdicts TLC computes from the specification (Rows_JtArray / Rows_JtPyTree)",
    text="19 operations (array checks with raising .shape/.dtype/__format__, PyTree checks with raising tree_flatten / leaf __instancecheck__ / unsortable dict keys, '?' leaves, nested PyTrees, decorated calls whose body / typechecker / __post_init__ raises, ill-typed calls, decoration sharing an annotation object, pickling, hook install/uninstall) are run with one fault (Exception or BaseException) at each call-out position 1..8, alone and in random histories of 2-3; after every history 11 probe checks (wrong dtype, wrong rank, non-array, '?' outside a PyTree, the shared annotation, checks in a fresh context, PyTree leaves) must give the verdict the specification computes for an empty context, top-level bindings must be empty, the stack empty and both flags reset.",
    note="Known finding D9 (old-style generator decoration makes the shared annotation transparent) is listed in known_findings.json and reported as KNOWN-FINDING. Histories are attributed per worker process with fresh annotation objects per history."),
+ "C07": dict(cat="model_checking", sec="5 C07",
+   tech="TLA+ spec JtCallShape (Python's argument binding rule as operator Binds over the five parameter kinds; Expected outcome / body-run count); TLC enumerates every signature shape x call shape; functions generated from source (def / async def / lambda, colliding parameter names), decorated and compared with the undecorated function; TLC re-decides each row (Rows_JtCallShape); metadata and descriptor kinds compared directly",
+   text="For every (signature shape over the five parameter kinds with defaults on/off, call shape with 0..3 positionals and any subset of keyword names): a non-binding call must raise the ordinary TypeError, a well-typed binding call must run the body exactly once with the very same argument objects and return the very same result object, an ill-typed one must raise TypeCheckError without running the body; __name__/__qualname__/__doc__/__module__/signature and descriptor kinds (method, classmethod, staticmethod, property) must be preserved.",
+   note="Known findings D8 (coroutine function with return annotation) and D14 (positional-only name passed as keyword into **kwargs: inspect.Signature.bind limitation) are listed in known_findings.json. *args/**kwargs are not annotated. Quick tier samples 5000 of the 28k pairs."),
+ "C19": dict(cat="model_checking", sec="5 C19",
+   tech="TLA+ state machine JtSwitch (switch updates with every spelling, decoration at any time, no_type_check above/below, calls) explored by TLC with DisabledIsPlain; all behaviours of 4 actions replayed in-process; JtCallShape rows with the switch on compared with the undecorated function by TLC; every spelling also via JAXTYPING_DISABLE in sub-processes",
+   text="All 83k sequences of 4 actions over {config.update with 12 spellings incl. invalid ones, decorate plain / no_type_check above / below, call well- / ill-typed} must produce the outcomes of the specification (ValueError for invalid spellings without changing the switch, no TypeCheckError while disabled or under no_type_check, checking restored after re-enabling without re-decoration); with the switch on, every signature x call shape row, ill-typed ones included, must equal the undecorated function in outcome and body runs; the environment variable is exercised in sub-processes with 13 spellings.",
+   note="Hooked-module variant is not replayed separately (hooked functions are ordinary jaxtyped functions; C11 covers instrumentation)."),
 }
 NOT_YET = {}
 
